@@ -97,10 +97,11 @@ func stat(v reflect.Value, depth int, maxItem int, opt Opt) []string {
 
 	switch v.Kind() {
 	case reflect.Map:
-		keys := v.MapKeys()
-		for i := 0; i < len(keys) && i < maxItem; i++ {
-			mapkey := keys[i]
-			subs := stat(v.MapIndex(mapkey), depth, maxItem, opt)
+		// MapRange, not MapIndex: a NaN key cannot be looked up
+		iter := v.MapRange()
+		for i := 0; i < maxItem && iter.Next(); i++ {
+			mapkey := iter.Key()
+			subs := stat(iter.Value(), depth, maxItem, opt)
 			subs[0] = fmt.Sprintf("%s: ", mapkey) + subs[0]
 
 			lines = append(lines, subs...)
@@ -143,12 +144,12 @@ func sizeof(v reflect.Value) int {
 	sum := 0
 	switch v.Kind() {
 	case reflect.Map:
-		keys := v.MapKeys()
-		for i := 0; i < len(keys); i++ {
-			mapkey := keys[i]
-			s := sizeof(mapkey)
+		// MapRange, not MapIndex: a NaN key cannot be looked up
+		iter := v.MapRange()
+		for iter.Next() {
+			s := sizeof(iter.Key())
 			sum += s
-			s = sizeof(v.MapIndex(mapkey))
+			s = sizeof(iter.Value())
 			sum += s
 		}
 	case reflect.Slice, reflect.Array:
